@@ -55,4 +55,55 @@
   (def ferr (file/open (string dir "/err.bin") :wb))
   (print "redir " (sh (string "cat; cat '" dir "/e.bin' >&2; exit 9") :p {:in fin :out fout :err ferr}))
   (file/close fin) (file/close fout) (file/close ferr))
+(when (= mode "inject")
+  # every wait-status word a terminated child can have (256 exit codes, 126 signals x core flag), delivered through the real
+  # reaping path (helper thread waitpid -> proc_get_status -> janet_proc_wait_cb -> resumed fiber / :return-code); the word
+  # is substituted in the interposed waitpid after the kernel reaped a real child
+  (defn run1 [tag n w]
+    (def p (os/spawn ["/bin/true"]))
+    (c16/status-for (p :pid) w)
+    (def r (try (string "ok " (os/proc-wait p)) ([e] (string "err " e))))
+    (print "inject-" tag " " n " " r " rc " (p :return-code)))
+  (for c 0 256 (run1 "exit" c (* c 256)))
+  (for s 1 127 (run1 "sig" s s) (run1 "sigcore" s (+ s 128)))
+  # os/execute with :x: the error message carries the decoded status
+  (each [n w] [[0 0] [1 256] [255 65280] [137 9] [139 139] [254 126]]
+    (c16/status-for -1 w)
+    (print "inject-x " n " " (sh "exit 0" :px)))
+  # os/proc-close waits when nobody did, and returns the decoded status
+  (each [n w] [[0 0] [3 768] [143 15]]
+    (def p (os/spawn ["/bin/true"]))
+    (c16/status-for (p :pid) w)
+    (print "inject-close " n " ok " (os/proc-close p) " rc " (p :return-code)))
+  # a second wait is refused, the recorded code stays
+  (let [p (os/spawn ["/bin/true"])]
+    (c16/status-for (p :pid) (* 42 256))
+    (def a (os/proc-wait p))
+    (def b (try (os/proc-wait p) ([e] (string "err " e))))
+    (print "inject-twice 0 ok " a " then " b " rc " (p :return-code))))
+(when (= mode "stdredir")
+  # redirections whose SOURCE is one of the standard descriptors of this process: the child must get exactly what was asked
+  # for, and keep the descriptors that were not mentioned (a3cd080: the file actions used to close / clobber them)
+  (defn run-case [tag f]
+    (print "stdredir-begin " tag) (flush)
+    (def r (try (f) ([e] (string "raised " e))))
+    (flush)
+    (print "stdredir-end " tag " " r) (flush))
+  (defn cmd [tag] ["/bin/sh" "-c" (string "echo out" tag "; echo err" tag " >&2; echo rc" tag "=$? >&2")])
+  (run-case "A" (fn [] (os/execute (cmd "A") :p {:err stdout})))
+  (run-case "B" (fn [] (os/execute (cmd "B") :p {:out stderr})))
+  (run-case "C" (fn []
+    (def f (file/open (string dir "/stdredir-c.txt") :w))
+    (def r (os/execute (cmd "C") :p {:out f :err stdout}))
+    (file/close f)
+    (string r " file=" (string/replace-all "\n" "|" (slurp (string dir "/stdredir-c.txt"))))))
+  (run-case "D" (fn []
+    (def p (os/spawn (cmd "D") :p {:out :pipe :err stdout}))
+    (def got (ev/read (p :out) 100))
+    (def r (os/proc-wait p))
+    (os/proc-close p)
+    (string r " piped=" (string/replace-all "\n" "|" (string got)))))
+  (run-case "F" (fn [] (os/execute (cmd "F") :p {:out stderr :err stdout})))
+  (run-case "G" (fn [] (os/execute ["/bin/sh" "-c" "cat; echo errG >&2"] :p {:in stdin :err stdout})))
+  (run-case "H" (fn [] (os/execute (cmd "H") :p {:out stdout :err stdout}))))
 (print "DONE")
